@@ -15,7 +15,10 @@ import (
 	"github.com/thanos-community/promql-engine/execution/parse"
 )
 
-var InvalidSample = promql.Sample{Point: promql.Point{T: -1, V: 0}}
+// InvalidSample is returned by a function that has no result for a step. Its
+// timestamp is one no step can have: a result of 0 at the evaluation time -1ms
+// (1ms before the epoch) is a valid sample and must not be mistaken for it.
+var InvalidSample = promql.Sample{Point: promql.Point{T: math.MinInt64, V: 0}}
 
 type FunctionArgs struct {
 	Labels       labels.Labels
